@@ -994,6 +994,9 @@ void apply_logic_net(bool const *inp, {BITS_TO_DTYPE[32]} *out, size_t len) {{
 
     def _forward_with_groupsum(self, x: np.ndarray, verbose: bool) -> torch.IntTensor:
         """Forward pass with GroupSum (batch processing)."""
+        if x.ndim < 2 or int(np.prod(x.shape[1:])) != self._get_input_size():
+            # the library reads input-size values per sample: anything else would run past the end of x
+            raise ValueError(f"expected a batch of samples of {self._get_input_size()} values, got shape {tuple(x.shape)}")
         batch_size_div_bits = math.ceil(x.shape[0] / self.num_bits)
         pad_len = batch_size_div_bits * self.num_bits - x.shape[0]
         x = np.concatenate([x, np.zeros((pad_len,) + x.shape[1:], dtype=x.dtype)])
